@@ -32,7 +32,8 @@ SRC_KINDS = ['gen', 'agen', 'rx3', 'rx4', 'rx3bp', 'rx4bp']
 
 def any_src(frag):
     lib = st.fixed_dictionaries({'kind': st.sampled_from(SRC_KINDS), 'els': st.lists(gen.nonempty_lens(frag, 2), max_size=8),
-                                 'end': st.sampled_from(['flag', 'sep']), 'awaits': st.integers(0, 2)})
+                                 'end': st.sampled_from(['flag', 'sep']), 'awaits': st.integers(0, 2),
+                                 'pace': st.sampled_from([0, 0, 0, 3, 11, 40])})
     # (a manual publisher may also fail: an ERROR that reaches a subscriber which has already cancelled must not be delivered)
     return st.one_of(gen.manual_src(frag, ends=('flag', 'sep', 'error'), max_frags=3), lib, lib)
 
